@@ -9,13 +9,13 @@ from core import MODEL_NAMES, model_class
 
 PLAYER_KINDS = ["int", "float", "bool", "None", "str", "tuple", "list", "dict", "object", "duck", "teamrating",
                 "class", "model", "function", "exception", "generator", "bytes", "frozenset_of_ratings", "range", "module", "nested_team",
-                "namespace", "bytearray", "memoryview"]
+                "namespace", "bytearray", "memoryview", "record"]
 TEAM_KINDS = ["tuple", "None", "int", "str", "dict", "bare_rating", "empty", "userlist", "chainmap", "bytearray",
               "deque", "namedtuple", "dict_values", "map", "str1", "bytes", "generator", "set"]
 TEAMS_KINDS = ["tuple", "dict", "frozenset", "str", "int", "None", "generator", "len0", "len1", "userlist", "deque", "dict_values", "map"]
 SEL_NONLIST = ["int", "float", "str", "tuple", "dict", "set", "bytes", "range", "True", "array", "deque", "generator", "map", "dict_values",
                "bytearray", "memoryview", "userlist"]
-SEL_ELEM = ["str", "None", "list", "tuple", "dict", "object", "bytes", "class"]
+SEL_ELEM = ["str", "None", "list", "tuple", "dict", "object", "bytes", "class", "record"]
 CALLS = ["rate", "win", "draw", "rank"]
 
 
@@ -30,6 +30,18 @@ class Duck:
 
     def ordinal(self, z=3.0):
         return self.mu - z * self.sigma
+
+
+class Record:
+    """An application's own player record with the classic dict-backed __getattr__: fine to
+    look at (type, repr, isinstance), but copy / pickle / a probe for a missing attribute
+    recurse or raise KeyError.  Not a rating: the only right answer is TypeError/ValueError."""
+
+    def __init__(self, **kw):
+        self.data = kw
+
+    def __getattr__(self, k):
+        return self.data[k]
 
 
 def grammar(sizes, model_name, calls=CALLS, positions="all", rng=None):
@@ -149,6 +161,8 @@ def _player_value(kind, model_name, like, team):
         return bytearray(b"rating")
     if kind == "memoryview":
         return memoryview(b"rating")
+    if kind == "record":
+        return Record(mu=mu, sigma=sigma, id="rec", name="rec")
     raise ValueError(kind)
 
 
@@ -176,7 +190,8 @@ def _sel_nonlist(kind, n):
 
 
 def _sel_elem(kind):
-    return {"str": "1", "None": None, "list": [1], "tuple": (1,), "dict": {1: 1}, "object": object(), "bytes": b"1", "class": float}[kind]
+    return {"str": "1", "None": None, "list": [1], "tuple": (1,), "dict": {1: 1}, "object": object(), "bytes": b"1", "class": float,
+            "record": Record(value=1)}[kind]
 
 
 def undo_inplace(teams, saved):
@@ -231,8 +246,11 @@ def build_call(desc, model_name, teams):
         elif kind.startswith("accepted_by:"):
             other = model_class(kind.split(":", 1)[1])()
             t = [[other.rating(mu=p.mu, sigma=p.sigma, name="foreign") for p in x] for x in teams]
-            other.predict_win(t)
-            other.predict_draw(t)
+            try:  # set-up only: whether that model accepts them is judged elsewhere (twins)
+                other.predict_win(t)
+                other.predict_draw(t)
+            except Exception:
+                pass
         else:
             raise ValueError(kind)
     elif arg == "team":
